@@ -381,6 +381,7 @@ def check(ctx):
     gradient_oracle(ctx)
     backward_options_contract(ctx)
     round3_contract(ctx)
+    callable_kinds_probe(ctx)
 
 
 # ---------------------------------------------------------------------------------------
@@ -580,6 +581,66 @@ def backward_options_contract(ctx):
     if not seen or any(k != {"bckonly": 4} for k in seen):
         ctx.fail("oracle", "options:rootfinder:backward-solver-options", {"bck_options": {"method": "<callable>", "bckonly": 4}}, seen[:2],
                  "the backward solver is called with {'bckonly': 4}")
+
+
+def callable_kinds_probe(ctx):
+    """the caller's method may be ANY callable - a functools.partial, an object with __call__, a bound method, a builtin-like
+    callable - not only a plain function (round-4 seed C18/11: hasattr(method, '__call__') replaced by inspect.isfunction)"""
+    import functools
+    import xitorch as xt
+    from xitorch.linalg import solve, symeig
+    from xitorch.optimize import rootfinder
+    from xitorch.integrate import quad
+    from xitorch.interpolate import Interp1D
+    from xitorch._impls.linalg.solve import exactsolve
+    from xitorch._impls.integrate.fixed_quad import leggauss
+    hits = []
+
+    def base(A, B, E=None, M=None, tag=None, **kw):
+        hits.append(tag)
+        return exactsolve(A, B, E, M)
+
+    class Obj:
+        def __call__(self, A, B, E=None, M=None, **kw):
+            hits.append("object")
+            return exactsolve(A, B, E, M)
+
+        def meth(self, A, B, E=None, M=None, **kw):
+            hits.append("bound-method")
+            return exactsolve(A, B, E, M)
+    Am = xt.LinearOperator.m(torch.tensor([[2.0, 0.3], [0.1, 3.0]], dtype=DT), is_hermitian=False)
+    Bm = torch.tensor([[1.0], [2.0]], dtype=DT)
+    ref = torch.linalg.solve(Am.fullmatrix(), Bm)
+    for kind, m in (("functools.partial", functools.partial(base, tag="partial")), ("callable-object", Obj()), ("bound-method", Obj().meth),
+                    ("lambda", lambda A, B, E=None, M=None, **kw: (hits.append("lambda"), exactsolve(A, B, E, M))[1])):
+        del hits[:]
+        try:
+            X = solve(Am, Bm, method=m)
+        except Exception as e:
+            ctx.fail("oracle", "dispatch:solve:callable-kind-rejected", {"method": kind}, repr(e)[:200], "any callable is accepted and called")
+            continue
+        ctx.count(("callable-kind", "solve", kind), nontrivial=True)
+        if not hits or not torch.allclose(X, ref):
+            ctx.fail("oracle", "dispatch:solve:callable-kind-not-called", {"method": kind}, {"called": list(hits)}, "the callable runs and its result is returned")
+    # the same for functionals of the other families
+    qhit = []
+    qpart = functools.partial(lambda fcn, xl, xu, params, tag=None, **kw: (qhit.append(tag), leggauss(fcn, xl, xu, params, n=8))[1], tag="q")
+    others = [("quad", lambda: quad(lambda x: x * x, torch.tensor(0.0, dtype=DT), torch.tensor(1.0, dtype=DT), method=qpart), lambda r: abs(float(r) - 1 / 3) < 1e-12 and qhit == ["q"]),
+              ("rootfinder", lambda: rootfinder(lambda y: y - 2.0, torch.zeros(1, dtype=DT),
+                                                method=functools.partial(lambda fcn, x0, params, shift=0.0, **kw: torch.full_like(x0, 2.0) + shift, shift=0.0)),
+               lambda r: abs(float(r) - 2.0) < 1e-12),
+              ("symeig", lambda: symeig(xt.LinearOperator.m(torch.diag(torch.tensor([1.0, 2.0], dtype=DT)), is_hermitian=True), 1,
+                                        method=functools.partial(lambda A, neig, mode, M=None, **kw: (torch.tensor([1.0], dtype=DT), torch.tensor([[1.0], [0.0]], dtype=DT))))[0],
+               lambda r: abs(float(r) - 1.0) < 1e-12)]
+    for fnl, call, ok in others:
+        try:
+            r = call()
+        except Exception as e:
+            ctx.fail("oracle", "dispatch:%s:callable-kind-rejected" % fnl, {"method": "functools.partial"}, repr(e)[:200], "any callable is accepted and called")
+            continue
+        ctx.count(("callable-kind", fnl, "functools.partial"), nontrivial=True)
+        if not ok(r):
+            ctx.fail("oracle", "dispatch:%s:callable-kind-not-called" % fnl, {"method": "functools.partial"}, str(r)[:100], "the callable's result")
 
 
 def round3_contract(ctx):
